@@ -626,3 +626,73 @@ func kindStrFunc(c *Ctx, it Item) (string, error) {
 	}
 	return fmt.Sprintf("open Nsq.Model.Str in\ndef %s %s : %s :=\n  %s\n", it.Str("name"), strings.Join(ps, " "), retType, body), nil
 }
+
+// kind "fatalcond": the condition under which a main() refuses to start with a given message.
+//
+//	{"kind":"fatalcond","name":N,"dir":D,"func":"main","contains":"--gzip-level","roots":["opts"]}
+//
+// Finds the unique top-level `if <cond> { log.Fatal[f](… "<text containing contains>" …) }` and renders <cond>
+// (same expression subset as strfunc; field paths rooted at the listed local variables become parameters) as
+// `def N (params) : Bool`. No match, several matches, an else branch or an init statement is REJECTED.
+func init() { register("fatalcond", kindFatalCond) }
+
+func kindFatalCond(c *Ctx, it Item) (string, error) {
+	p, fd, err := c.FindFunc(it.Str("dir"), it.Str("func"))
+	if err != nil {
+		return "", err
+	}
+	t := &sfTrans{p: p, fset: p.Fset, externals: map[string]string{}, fallible: map[string]string{},
+		skip: map[string]bool{}, seen: map[string]string{}, roots: map[string]bool{}, resKind: "bool"}
+	for _, r := range it.Strs("roots") {
+		t.roots[r] = true
+	}
+	var cond ast.Expr
+	n := 0
+	for _, s := range fd.Body.List {
+		is, ok := s.(*ast.IfStmt)
+		if !ok || len(is.Body.List) == 0 {
+			continue
+		}
+		es, ok := is.Body.List[0].(*ast.ExprStmt)
+		if !ok {
+			continue
+		}
+		call, ok := es.X.(*ast.CallExpr)
+		if !ok {
+			continue
+		}
+		fn := exprText(p.Fset, call.Fun)
+		if fn != "log.Fatal" && fn != "log.Fatalf" {
+			continue
+		}
+		hit := false
+		for _, a := range call.Args {
+			if s, ok := t.constStr(a); ok && strings.Contains(s, it.Str("contains")) {
+				hit = true
+			}
+		}
+		if !hit {
+			continue
+		}
+		if is.Init != nil || is.Else != nil {
+			return "", fmt.Errorf("fatalcond: the matching if has an init statement or an else branch")
+		}
+		cond = is.Cond
+		n++
+	}
+	if n != 1 {
+		return "", fmt.Errorf("fatalcond: expected exactly one `if … { log.Fatal(…%q…) }` at the top level of %s, found %d", it.Str("contains"), it.Str("func"), n)
+	}
+	lean, k, err := t.expr(cond, &sfEnv{vars: map[string]string{}, types: map[string]string{}})
+	if err != nil {
+		return "", fmt.Errorf("fatalcond %s: %v", it.Str("name"), err)
+	}
+	if k != "bool" {
+		return "", fmt.Errorf("fatalcond: condition is not boolean")
+	}
+	var ps []string
+	for _, n := range t.params {
+		ps = append(ps, fmt.Sprintf("(%s : %s)", n, sfLeanType(t.seen[n])))
+	}
+	return fmt.Sprintf("open Nsq.Model.Str in\ndef %s %s : Bool :=\n  %s\n", it.Str("name"), strings.Join(ps, " "), lean), nil
+}
